@@ -405,7 +405,7 @@ def guard_call_atoms(fa: FuncAnalysis, at_expr: ast.AST) -> List[Tuple[ast.AST, 
         elif isinstance(call.func, ast.Attribute) and isinstance(call.func.value, ast.Name) and fi.cls is not None and fi.pos_params and call.func.value.id == fi.pos_params[0]:
             h = m.find_method(fi.cls, call.func.attr)
             skip = 0 if (h is not None and "staticmethod" in h.decorators) else 1
-        if h is None or isinstance(h.node, ast.Lambda) or not h.name.startswith("_") or h.name.startswith("__"):
+        if h is None or isinstance(h.node, ast.Lambda) or not h.is_private:
             continue
         body = [b for b in h.node.body if not (isinstance(b, ast.Expr) and isinstance(b.value, ast.Constant))]
         tests = []
@@ -451,7 +451,7 @@ def caller_context_atoms(fa: FuncAnalysis, depth: int = 2) -> List[Tuple[ast.AST
     fi = fa.fi
     if depth <= 0 or isinstance(fi.node, ast.Lambda):
         return []
-    private = fi.name.startswith("_") and not fi.name.startswith("__") or fi.parent_func is not None
+    private = fi.is_private or fi.parent_func is not None
     if not private or fi.name.startswith(("visit_", "call_")) or fi.name in ("generic_visit", "visit"):
         return []
     sites = call_sites_of(fa.model, fi)
@@ -745,7 +745,7 @@ def private_callees(model: Model, fi: FuncInfo) -> List[FuncInfo]:
         if g is None or g is fi or g in out:
             continue
         nested = g.parent_func is fi
-        private_fn = g.module is fi.module and g.name.startswith("_") and not g.name.startswith("__")
+        private_fn = (g.module is fi.module and g.name.startswith("_") and not g.name.startswith("__")) or (g.cls is None and g.is_private and not g.name.startswith("_"))
         # a method of a class that itself lives inside a function cannot be called from outside: private in effect
         # (the visitor protocol's own entry points are not helpers)
         inner_method = g.cls is not None and g.cls is fi.cls and g.parent_func is not None and not g.name.startswith(("visit_", "call_", "__")) and g.name not in ("visit", "generic_visit")
